@@ -29,6 +29,9 @@ type c09Op struct {
 	Txs  []HTx `json:"txs,omitempty"`
 	A    int   `json:"a,omitempty"`
 	B    int   `json:"b,omitempty"`
+	// Overlap (sAddition with >= 2 tables): the last table is written with limits that start AT
+	// the previous table's maximum instead of above it; the Addition must refuse it
+	Overlap bool `json:"overlap,omitempty"`
 }
 
 type c09Case struct {
@@ -62,6 +65,7 @@ func genC09(t *rapid.T) c09Case {
 			for j := 0; j < m; j++ {
 				op.Txs = append(op.Txs, nonEmptyTx(t, o))
 			}
+			op.Overlap = m >= 2 && rapid.IntRange(0, 3).Draw(t, "overlap") == 3
 		case k < 13:
 			op.Kind = sCompactAll
 		case k < 16:
@@ -230,8 +234,23 @@ func propC09(c c09Case, o *Obs) error {
 			next := h.st.NextUpdateIndex()
 			tmp := store.Clone()
 			var top uint64
-			for _, tx := range op.Txs {
+			refusedOverlap := false
+			for j, tx := range op.Txs {
 				min := next + uint64(tx.Gap)
+				if op.Overlap && j == len(op.Txs)-1 && j > 0 {
+					// update-index ranges of one stack must be strictly increasing: a table that
+					// starts at the previous table's maximum has to be refused, and nothing of
+					// this Addition may become visible
+					min = next - 1
+					refs, logs, max := tx.Resolve(min, tmp, c.Cfg)
+					err := tr.Add(WriteFn(min, max, refs, logs))
+					if err == nil {
+						tr.Close()
+						return Failf("C09/overlapping-table-accepted", "%s: Addition.Add accepted a table with limits [%d,%d] after a table ending at %d", what, min, max, next-1)
+					}
+					refusedOverlap = true
+					break
+				}
 				refs, logs, max := tx.Resolve(min, tmp, c.Cfg)
 				if err := tr.Add(WriteFn(min, max, refs, logs)); err != nil {
 					tr.Close()
@@ -240,6 +259,13 @@ func propC09(c c09Case, o *Obs) error {
 				tmp.Apply(refs, NormLogs(logs, c.Cfg))
 				next = max + 1
 				top = max
+			}
+			if refusedOverlap {
+				tr.Close() // abandoned: the model stays as it was
+				if d := dirState(dir); d != beforeDir {
+					return Failf("C09/refused-addition-changed-dir", "%s: an Addition whose last table was refused left the directory changed:\nbefore %s\nafter  %s", what, beforeDir, d)
+				}
+				break
 			}
 			if err := tr.Commit(); err != nil {
 				tr.Close()
